@@ -6,6 +6,8 @@ import os
 import re
 from enum import Enum
 from html import entities as htmlentitydefs
+from types import GetSetDescriptorType
+from types import MemberDescriptorType
 from typing import TYPE_CHECKING
 from typing import Any
 from typing import Generic
@@ -274,6 +276,19 @@ def create_formatted_exception(
 
         BaseException.__init__(inst, *exc.args)
         inst.__dict__ = exc.__dict__  # type: ignore[assignment]
+
+        # State kept outside ``args`` and ``__dict__``: the fields of
+        # built-in exceptions (``errno``, ``filename``, ``lineno``,
+        # ``value``, ...), slots, the cause and the context.
+        for klass in cls.__mro__[:-1]:
+            for name, attr in vars(klass).items():
+                if name not in ('__dict__', '__weakref__', 'args') and \
+                   isinstance(attr, (MemberDescriptorType,
+                                     GetSetDescriptorType)):
+                    try:
+                        setattr(inst, name, getattr(exc, name))
+                    except (AttributeError, TypeError, ValueError):
+                        pass
 
         return inst
     except ValueError:
